@@ -220,3 +220,78 @@ func TestBoundedSplitDelivery(t *testing.T) {
 	}
 	t.Logf("BOUNDED explored=%d failing=%d (dynamic blocks x deliveries: whole, every two-piece cut, three pieces, byte by byte)", explored, nfail)
 }
+
+// TestBoundedTruncatedDelivery: the truncated half of C04. Streams of literal-rich text compressed by the standard
+// library (one dynamic block, made the final block by setting BFINAL in its header, which keeps the stream valid),
+// cut at every byte of a window behind the point where more than 2048 and more than 4096 input bytes are in hand (so
+// that the whole delivery builds pair and triple tables), are delivered whole and one byte per Read: both must end in
+// io.ErrUnexpectedEOF, both outputs must be prefixes of the text (nothing invented), and - the part that is a
+// recorded finding on the unchanged tree, see known_findings.txt - they must have the same length.
+func TestBoundedTruncatedDelivery(t *testing.T) {
+	nb := envInt("VERIF_BOUNDED_TRUNC_STREAMS", 3)
+	rng := rand.New(rand.NewSource(int64(envInt("VERIF_BOUNDED_SEED", 20260102)) + 11))
+	words := []string{"window", "header", "symbol", "literal", "block", "the", "of", "and", "stream", "buffer", "Huffman", "distance", "length", "carry", "refill", "input", "output"}
+	explored, nfail := 0, 0
+	seen := map[string]bool{}
+	fail := func(cut int, m string) {
+		nfail++
+		cls := boundedClass(m)
+		if len(cls) > 70 {
+			cls = cls[:70]
+		}
+		if !seen[cls] {
+			seen[cls] = true
+			t.Errorf("BOUNDED-FAIL lens=[] prefill=%d: %s", cut, m)
+		}
+	}
+	for i := 0; i < nb; i++ {
+		var txt bytes.Buffer
+		size := 12000 + 9000*i
+		for txt.Len() < size {
+			txt.WriteString(words[rng.Intn(len(words))])
+			switch rng.Intn(8) {
+			case 0:
+				txt.WriteString(".\n")
+			case 1:
+				txt.WriteString(", ")
+			case 2:
+				txt.WriteByte(byte('0' + rng.Intn(10)))
+				txt.WriteByte(' ')
+			default:
+				txt.WriteByte(' ')
+			}
+		}
+		var cb bytes.Buffer
+		zw, _ := stdflate.NewWriter(&cb, 6)
+		zw.Write(txt.Bytes())
+		zw.Close()
+		comp := cb.Bytes()
+		if comp[0]&6 != 4 {
+			t.Fatalf("harness error: the standard library did not write a dynamic block first")
+		}
+		comp[0] |= 1
+		full, err := io.ReadAll(NewReader(bytes.NewReader(comp)))
+		if err != nil || len(full) > txt.Len() || !bytes.Equal(full, txt.Bytes()[:len(full)]) {
+			fail(0, fmt.Sprintf("split delivery of a final dynamic block made final by BFINAL: the complete stream decodes to %d bytes and %v", len(full), err))
+			continue
+		}
+		for cut := 60; cut < len(comp)-6; cut++ {
+			if cut > 400 && cut < len(comp)-700 && cut%7 != 0 {
+				continue
+			}
+			s := comp[:cut]
+			explored += 2
+			a, ea := io.ReadAll(NewReader(bytes.NewReader(s)))
+			b, eb := io.ReadAll(NewReader(&boundedOneByte{data: s}))
+			switch {
+			case ea != io.ErrUnexpectedEOF || eb != io.ErrUnexpectedEOF:
+				fail(cut, fmt.Sprintf("split delivery of a truncated final dynamic block: errors %v (whole) and %v (byte by byte), want unexpected EOF twice", ea, eb))
+			case len(a) > len(full) || len(b) > len(full) || !bytes.Equal(a, full[:len(a)]) || !bytes.Equal(b, full[:len(b)]):
+				fail(cut, fmt.Sprintf("split delivery of a truncated final dynamic block: output is not a prefix of the data (whole %d bytes, byte by byte %d)", len(a), len(b)))
+			case len(a) != len(b):
+				fail(cut, fmt.Sprintf("split delivery of a truncated final dynamic block: bytes before the error depend on the delivery (whole %d, byte by byte %d, stream of %d bytes cut at %d)", len(a), len(b), len(comp), cut))
+			}
+		}
+	}
+	t.Logf("BOUNDED explored=%d failing=%d (truncated final dynamic blocks x deliveries: whole, byte by byte)", explored, nfail)
+}
